@@ -162,3 +162,53 @@ pub fn force_grid(ctx: &mut Ctx, den: f64, positive_only: bool) -> u64 {
     ctx.forced = Some((hi, 0.0));
     i
 }
+
+/// ANY valid double-double: every binade from the subnormals to f64::MAX, zero, the published
+/// constants with MAX/MIN, results of earlier calls, and - because the range limits of the
+/// exponential family live there - a dense stratum over 500 <= |x| <= 1100 with its pivots.
+/// Used by the "no function of the family panics" clauses, which quantify over all valid x.
+pub fn any_valid(ctx: &mut Ctx) -> Dd {
+    if let Some(c) = maybe_constant(ctx, 16, true) {
+        return c;
+    }
+    match ctx.weighted(&[5, 4, 3, 1, 1, 1]) {
+        0 => {
+            ctx.label("arg:whole-range");
+            dd_closed(ctx, -1022, 1023, true)
+        }
+        1 => {
+            ctx.label("arg:limit-region");
+            let u = ctx.bits(53) as f64 / 9007199254740992.0;
+            let x = 500.0 + 600.0 * u;
+            let sg = ctx.flag();
+            dd_at(ctx, if sg { -x } else { x })
+        }
+        2 => {
+            ctx.label("arg:pivot");
+            const P: [f64; 24] = [
+                709.0, 709.75, 709.78, 710.0, 719.75, 720.0, 744.0, 745.0, 745.13, 750.0, 1022.0, 1023.0, 1024.0, 1074.0, 1075.0, 1080.0, 600.0, 700.0, 354.0, 88.0, 22.0, 1e10, 9007199254740992.0,
+                1.0,
+            ];
+            let p = P[ctx.below(P.len() as u64) as usize];
+            let p = if ctx.flag() { -p } else { p };
+            let hi = pivot_near(ctx, p);
+            dd_at(ctx, hi)
+        }
+        3 => {
+            ctx.label("arg:subnormal-high-word");
+            let m = ctx.bits(52).max(1);
+            let hi = f64::from_bits(((ctx.flag() as u64) << 63) | (m >> ctx.below(52)));
+            Dd::new(if hi == 0.0 { f64::from_bits(1) } else { hi }, 0.0)
+        }
+        4 => derived_operand(ctx, -1000, 999).unwrap_or(Dd::new(1.0, 0.0)),
+        _ => {
+            ctx.label("zero");
+            Dd::new(if ctx.flag() { -0.0 } else { 0.0 }, 0.0)
+        }
+    }
+}
+
+/// operand domain of C01's shape rule (hi = 0 or 2^-1000 <= |hi| <= 2^1000)
+pub fn in_c01_operand_domain(x: Dd) -> bool {
+    x.hi == 0.0 || (x.hi.abs() >= pow2_f64(-1000) && x.hi.abs() <= pow2_f64(1000))
+}
